@@ -48,6 +48,12 @@ def cases(tier, seed):
                 d.update({"cid": f"c06-{seed}-{k}+{j + 1}", "lib": c["lib"], "writers": ["mark"], "q": c.get("q", 1), "markOpts": c.get("markOpts")})
                 c["then"].append(d)
         out.append(c)
+    # Indic fonts whose ligature components carry numbered anchors of every name the writer routes to abvm / blwm by name
+    rng2 = random.Random(seed * 217645199 + 60006)
+    for k in range(16 if tier == "quick" else 200):
+        c = layout_gen.indic_anchors_font(rng2)
+        c.update({"cid": f"c06-{seed}-in{k}", "lib": rng2.choice(["ufoLib2", "defcon"]), "writers": ["mark"]})
+        out.append(c)
     # variable anchors: 2-3 master families (also with values that agree in the first- and last-listed source and differ in
     # between), read back at every master location
     from .. import gen
